@@ -32,10 +32,14 @@ func writeStreamEstablishHeader(w io.Writer, msg *StreamEstablish) (int, error) 
 func readAtLeast(r io.Reader, n, min int, buf []byte) (int, error) {
 	for n < min {
 		nr, err := r.Read(buf[n:])
+		// a reader may return the final bytes together with the error (see io.Reader)
+		n += nr
 		if err != nil {
+			if n >= min {
+				return n, nil
+			}
 			return n, err
 		}
-		n += nr
 	}
 	return n, nil
 }
